@@ -221,6 +221,7 @@ PROPS["C13"] = dict(
     steps=[
         dict(test="^TestC13_Timelines$", quick=dict(checks=3, timeout=900, shrink="1s"), thorough=dict(checks=10, shards=8, timeout=3000, shrink="1s")),
         dict(test="^TestC13_StalledWriter$", quick=dict(timeout=300), thorough=dict(timeout=600)),
+        dict(test="^TestC13_ZoneChange$", quick=dict(checks=3, timeout=900, shrink="1s"), thorough=dict(checks=40, shards=1, timeout=3000, shrink="1s")),
         dict(test="^TestC13_Edges$", quick=dict(checks=6, timeout=900, shrink="1s"), thorough=dict(checks=40, shards=1, timeout=3000, shrink="1s")),
     ],
 )
